@@ -4,6 +4,10 @@ from . import l2, l8
 
 
 def run(run, tier):
+    # writer-only fields are stepped over by the skip_* functions: exact consumption for every value (E1)
+    from vf.e1 import E1Runner
+    from . import prim
+    prim.run_group(run, E1Runner(run), prim.SKIP_EXACT_HARNESSES)
     hs = l8.harnesses(tier, run.seed)
     ch.run_harnesses(run, "C08", hs, timeout=100 if tier == "quick" else 300)
     l2.describe(run, tier)
